@@ -337,10 +337,22 @@ def literal_plumbing(ctx):
     if fn is None:
         raise X.Unanalysable('parse_smt_literal not found')
     callees = []
-    for bb, c, args, dest, tgt, line, exp in fn.calls():
-        nm = c.get('resolved') or c.get('callee')
-        if nm and nm.startswith('smt_strings::'):
-            callees.append(nm)
+    from ..inventory import KNOWN
+    # the function, the closures written in it and the helpers introduced after the reference tree that it calls
+    units, seen = [fn], set()
+    while units:
+        f_ = units.pop()
+        if f_.path in seen:
+            continue
+        seen.add(f_.path)
+        units.extend(g for p_, g in cr.fns.items() if p_.startswith(f_.path + '::{closure'))
+        for bb, c, args, dest, tgt, line, exp in f_.calls():
+            nm = c.get('resolved') or c.get('callee')
+            if nm and nm.startswith('smt_strings::'):
+                if nm not in KNOWN and cr.fn(nm) is not None:
+                    units.append(cr.fn(nm))
+                else:
+                    callees.append(nm)
     okset = set(callees) <= {'smt_strings::new_automaton', PA + '::accept', PA + '::flush_pending', 'smt_strings::SmtString::make'}
     need = all(n in callees for n in ('smt_strings::new_automaton', PA + '::accept', PA + '::flush_pending', 'smt_strings::SmtString::make'))
     ctx.obligation(okset and need)
@@ -395,26 +407,27 @@ def _is_alias(fn, a, b):
 
 
 def literal_plumbing_c08(ctx):
-    """C08 view of parse_smt_literal: every char of the text is given to accept in order, then the buffer is flushed."""
+    """C08 view of parse_smt_literal: every char of the text is given to accept in order, then the buffer is flushed.
+    Decided by the interpreted rule (literal_driver: each-character-in-order-is-accepted-once / all-characters-consumed-
+    then-flush-then-make-from-the-buffer); what is left here is the existence of the pieces in the function, its
+    closures and later-introduced helpers (an anchor check, not a shape check)."""
     cr = ctx.crate('dev')
     fn = cr.fn('smt_strings::parse_smt_literal')
     if fn is None:
         raise X.Unanalysable('parse_smt_literal not found')
-    order = []
-    for bb, c, args, dest, tgt, line, exp in fn.calls():
-        nm = c.get('resolved') or c.get('callee')
-        order.append((bb, nm))
-    names = [n for _, n in order]
-    loops = fn.loops()
-    acc_bbs = [bb for bb, n in order if n == PA + '::accept']
-    flush_bbs = [bb for bb, n in order if n == PA + '::flush_pending']
-    make_bbs = [bb for bb, n in order if n == 'smt_strings::SmtString::make']
-    next_bbs = [bb for bb, n in order if n and n.endswith('::next') and 'Chars' in n]
-    chars = [bb for bb, n in order if n == 'core::str::<impl str>::chars']
-    in_loop = lambda b: any(b in body for body in loops.values())
-    ok = (len(acc_bbs) == 1 and in_loop(acc_bbs[0]) and len(next_bbs) == 1 and in_loop(next_bbs[0]) and len(chars) == 1 and
-          len(flush_bbs) == 1 and not in_loop(flush_bbs[0]) and len(make_bbs) == 1 and not in_loop(make_bbs[0]) and
-          fn.dominates(flush_bbs[0], make_bbs[0]))
-    # the char given to accept is the item produced by next() in the same iteration
+    from ..inventory import KNOWN
+    names, units, seen = [], [fn], set()
+    while units:
+        f_ = units.pop()
+        if f_.path in seen:
+            continue
+        seen.add(f_.path)
+        units.extend(g for p_, g in cr.fns.items() if p_.startswith(f_.path + '::{closure'))
+        for bb, c, args, dest, tgt, line, exp in f_.calls():
+            nm = c.get('resolved') or c.get('callee')
+            if nm and nm not in KNOWN and cr.fn(nm) is not None:
+                units.append(cr.fn(nm))
+            names.append(nm)
+    ok = all(any(n == want for n in names) for want in (PA + '::accept', PA + '::flush_pending', 'smt_strings::SmtString::make', 'core::str::<impl str>::chars'))
     ctx.obligation(ok)
     (ctx.ok if ok else ctx.violation)('C08.R3', 'C08.R3/parse_smt_literal/feeds-every-char-then-flushes', fn.path, fn.site(), {'calls': names})
